@@ -2305,7 +2305,18 @@ func (interp *Interpreter) cfg(root *node, sc *scope, importPath, pkgName string
 			clauses := sbn.child
 			l := len(clauses)
 			if l == 0 {
-				// Switch is empty
+				// Switch is empty: only the init statement and the tag are evaluated.
+				n.start = n.child[0].start
+				if n.kind == typeSwitch {
+					init := n.child[1].lastChild().child[0]
+					init.tnext = n
+					n.child[0].tnext = init.start
+					break
+				}
+				for i, c := range n.child[:len(n.child)-1] {
+					c.tnext = n.child[i+1].start
+				}
+				n.child[len(n.child)-2].tnext = n
 				break
 			}
 			// Chain case clauses.
@@ -2351,7 +2362,10 @@ func (interp *Interpreter) cfg(root *node, sc *scope, importPath, pkgName string
 				init.tnext = sbn.start
 				n.child[0].tnext = init.start
 			} else {
-				n.child[0].tnext = sbn.start
+				// Chain the init statement, if any, and the tag expression.
+				for i, c := range n.child[:len(n.child)-1] {
+					c.tnext = n.child[i+1].start
+				}
 			}
 
 		case switchIfStmt: // like an if-else chain
@@ -2360,7 +2374,11 @@ func (interp *Interpreter) cfg(root *node, sc *scope, importPath, pkgName string
 			clauses := sbn.child
 			l := len(clauses)
 			if l == 0 {
-				// Switch is empty
+				// Switch is empty: only the init statement is executed.
+				if len(n.child) > 1 {
+					n.start = n.child[0].start
+					n.child[0].tnext = n
+				}
 				break
 			}
 			// Wire case clauses in reverse order so the next start node is already resolved when used.
